@@ -1,286 +1,42 @@
 /-
   Semantics of the Walsh–Hadamard transform `fwht` and of `eval_poly` over `ZMod 65535`.
 -/
-import RSVerif.Proofs.Walsh
-import Mathlib.Data.ZMod.Basic
-import Mathlib.Algebra.BigOperators.Ring.Finset
-import Mathlib.Algebra.BigOperators.Intervals
-import Mathlib.Tactic.Ring
-import Mathlib.Tactic.LinearCombination
+import RSVerif.Proofs.WalshSpecAux
 
 open Finset
 
 namespace RS
 
-/-- the ring of discrete logarithms -/
-abbrev Z := ZMod 65535
-
-/-! ### `add_mod` / `sub_mod` in `ZMod 65535` -/
-
-theorem Z_65536 : ((65536 : ℕ) : Z) = 1 := by
-  have h : ((65535 : ℕ) : Z) = 0 := ZMod.natCast_self 65535
-  have e : (65536 : ℕ) = 65535 + 1 := rfl
-  rw [e, Nat.cast_add, h, zero_add, Nat.cast_one]
-
-theorem addMod_lt (x y : ℕ) (hx : x < 65536) (hy : y < 65536) : addMod x y < 65536 :=
-  (addMod_spec x y hx hy).1
-
-theorem subMod_lt (x y : ℕ) (hx : x < 65536) (hy : y < 65536) : subMod x y < 65536 :=
-  (subMod_spec x y hx hy).1
-
-theorem addMod_cast (x y : ℕ) (hx : x < 65536) (hy : y < 65536) :
-    ((addMod x y : ℕ) : Z) = (x : Z) + (y : Z) := by
-  have h := (addMod_spec x y hx hy).2
-  rw [← Nat.cast_add]
-  exact (ZMod.natCast_eq_natCast_iff' _ _ 65535).2 h
-
-theorem subMod_cast (x y : ℕ) (hx : x < 65536) (hy : y < 65536) :
-    ((subMod x y : ℕ) : Z) = (x : Z) - (y : Z) := by
-  have h := (subMod_spec x y hx hy).2
-  have h' : ((subMod x y + y : ℕ) : Z) = (x : Z) :=
-    (ZMod.natCast_eq_natCast_iff' _ _ 65535).2 h
-  rw [Nat.cast_add] at h'
-  rw [← h']; ring
-
-/-- item 4: the product step of `eval_poly` is multiplication in `ZMod 65535`. -/
-theorem mulStep_spec (e f : ℕ) (he : e < 65536) (hf : f < 65536) :
-    addMod (e * f % 65536) (e * f / 65536) < 65536 ∧
-      ((addMod (e * f % 65536) (e * f / 65536) : ℕ) : Z) = (e : Z) * (f : Z) := by
-  have h1 : e * f % 65536 < 65536 := Nat.mod_lt _ (by decide)
-  have h2 : e * f / 65536 < 65536 := by
-    rw [Nat.div_lt_iff_lt_mul (by decide)]
-    exact Nat.mul_lt_mul'' he hf
-  refine ⟨addMod_lt _ _ h1 h2, ?_⟩
-  rw [addMod_cast _ _ h1 h2]
-  have h3 : e * f = e * f % 65536 + 65536 * (e * f / 65536) := (Nat.mod_add_div _ _).symm
-  have h4 : ((e * f : ℕ) : Z) = ((e * f % 65536 : ℕ) : Z) + ((65536 : ℕ) : Z) * ((e * f / 65536 : ℕ) : Z) := by
-    rw [← Nat.cast_mul, ← Nat.cast_add, ← h3]
-  rw [Z_65536, one_mul, Nat.cast_mul] at h4
-  exact h4.symm
-
-/-! ### the Walsh sign `(-1)^popcount (x &&& y)` on 16-bit numbers -/
-
-/-- contribution of one bit position -/
-def wbit (u v : Bool) : Z := if u && v then -1 else 1
-
-/-- `wsign x y = (-1)^popcount (x &&& y)` (over the low 16 bits) -/
-def wsign (x y : ℕ) : Z := ∏ i ∈ range 16, wbit (x.testBit i) (y.testBit i)
-
-theorem wbit_xor_left (u v w : Bool) : wbit (u ^^ v) w = wbit u w * wbit v w := by
-  cases u <;> cases v <;> cases w <;> simp [wbit]
-
-theorem wbit_comm (u v : Bool) : wbit u v = wbit v u := by
-  cases u <;> cases v <;> simp [wbit]
-
-theorem wbit_false_left (v : Bool) : wbit false v = 1 := by simp [wbit]
-
-theorem wbit_false_right (v : Bool) : wbit v false = 1 := by simp [wbit]
-
-theorem wbit_mul_self (u v : Bool) : wbit u v * wbit u v = 1 := by
-  cases u <;> cases v <;> simp [wbit]
-
-theorem wsign_comm (x y : ℕ) : wsign x y = wsign y x :=
-  Finset.prod_congr rfl fun _ _ => wbit_comm _ _
-
-theorem wsign_xor_left (x j y : ℕ) : wsign (x ^^^ j) y = wsign x y * wsign j y := by
-  unfold wsign
-  rw [← Finset.prod_mul_distrib]
-  exact Finset.prod_congr rfl fun i _ => by rw [Nat.testBit_xor, wbit_xor_left]
-
-theorem wsign_xor_right (x y j : ℕ) : wsign x (y ^^^ j) = wsign x y * wsign x j := by
-  rw [wsign_comm, wsign_xor_left, wsign_comm y, wsign_comm j]
-
-theorem wsign_zero_left (y : ℕ) : wsign 0 y = 1 :=
-  Finset.prod_eq_one fun i _ => by rw [Nat.zero_testBit, wbit_false_left]
-
-theorem wsign_zero_right (x : ℕ) : wsign x 0 = 1 := by rw [wsign_comm, wsign_zero_left]
-
-theorem wsign_mul_self (x y : ℕ) : wsign x y * wsign x y = 1 := by
-  unfold wsign
-  rw [← Finset.prod_mul_distrib]
-  exact Finset.prod_eq_one fun i _ => wbit_mul_self _ _
-
-theorem wsign_two_pow (i : ℕ) (hi : i < 16) (y : ℕ) :
-    wsign (2 ^ i) y = if y.testBit i then -1 else 1 := by
-  unfold wsign
-  rw [Finset.prod_eq_single i]
-  · rw [Nat.testBit_two_pow_self]; cases y.testBit i <;> simp [wbit]
-  · intro k _ hk
-    rw [Nat.testBit_two_pow_of_ne (Ne.symm hk), wbit_false_left]
-  · intro h; exact absurd (Finset.mem_range.2 hi) h
-
-/-- for `x < 2^b` the sign only depends on the low `b` bits of the other argument -/
-theorem wsign_mod (x p b : ℕ) (hx : x < 2 ^ b) : wsign x (p % 2 ^ b) = wsign x p := by
-  refine Finset.prod_congr rfl fun i _ => ?_
-  by_cases hib : i < b
-  · rw [Nat.testBit_mod_two_pow]; simp [hib]
-  · have hxi : x.testBit i = false :=
-      Nat.testBit_lt_two_pow (Nat.lt_of_lt_of_le hx (Nat.pow_le_pow_right (by decide) (Nat.le_of_not_lt hib)))
-    rw [hxi, wbit_false_left, wbit_false_left]
-
-theorem wsign_of_mod_eq (x p q b : ℕ) (hx : x < 2 ^ b) (h : p % 2 ^ b = q % 2 ^ b) :
-    wsign x p = wsign x q := by
-  rw [← wsign_mod x p b hx, ← wsign_mod x q b hx, h]
-
-/-- `2^b + x = 2^b xor x` for `x < 2^b` -/
-theorem two_pow_add_eq_xor (b x : ℕ) (hx : x < 2 ^ b) : 2 ^ b + x = 2 ^ b ^^^ x := by
-  have h := Nat.two_pow_add_eq_or_of_lt hx 1
-  rw [Nat.mul_one] at h
-  rw [h]
-  apply Nat.eq_of_testBit_eq
-  intro i
-  rw [Nat.testBit_or, Nat.testBit_xor]
-  by_cases hib : b = i
-  · subst hib
-    rw [Nat.testBit_lt_two_pow hx]; simp
-  · rw [Nat.testBit_two_pow_of_ne hib]; simp
-
-theorem wsign_two_pow_add (b x p : ℕ) (hb : b < 16) (hx : x < 2 ^ b) :
-    wsign (2 ^ b + x) p = (if p.testBit b then -1 else 1) * wsign x p := by
-  rw [two_pow_add_eq_xor b x hx, wsign_xor_left, wsign_two_pow b hb]
-
-/-! ### radix-2 levels and partial transforms (on functions `ℕ → Z`) -/
-
-/-- one radix-2 butterfly level at distance `d = 2^b` -/
-def lvl (d : ℕ) (f : ℕ → Z) (p : ℕ) : Z :=
-  if p / d % 2 = 0 then f p + f (p + d) else f (p - d) - f p
-
-/-- the transform of every aligned block of size `2^b` -/
-def part (b : ℕ) (f : ℕ → Z) (p : ℕ) : Z :=
-  ∑ x ∈ range (2 ^ b), wsign x p * f (p / 2 ^ b * 2 ^ b + x)
-
-theorem part_zero (f : ℕ → Z) : part 0 f = f := by
-  funext p
-  simp [part, wsign_zero_left]
-
-theorem part_succ (b : ℕ) (hb : b < 16) (f : ℕ → Z) (p : ℕ) :
-    part (b + 1) f p = lvl (2 ^ b) (part b f) p := by
-  have hd : 0 < 2 ^ b := Nat.two_pow_pos b
-  have htb : p.testBit b = decide (p / 2 ^ b % 2 = 1) := Nat.testBit_eq_decide_div_mod_eq
-  unfold lvl
-  show ∑ x ∈ range (2 ^ (b + 1)), wsign x p * f (p / 2 ^ (b + 1) * 2 ^ (b + 1) + x) = _
-  rw [pow_succ, mul_two, Finset.sum_range_add, ← mul_two, ← Nat.div_div_eq_div_mul]
-  generalize hm : p / 2 ^ b = m at htb
-  have hB : m / 2 * (2 ^ b * 2) = m / 2 * 2 * 2 ^ b := by ring
-  rw [hB]
-  have hsecond : ∀ x ∈ range (2 ^ b), wsign (2 ^ b + x) p * f (m / 2 * 2 * 2 ^ b + (2 ^ b + x)) =
-      (if p.testBit b then -1 else 1) * (wsign x p * f ((m / 2 * 2 + 1) * 2 ^ b + x)) := by
-    intro x hx
-    rw [wsign_two_pow_add b x p hb (Finset.mem_range.1 hx)]
-    have : m / 2 * 2 * 2 ^ b + (2 ^ b + x) = (m / 2 * 2 + 1) * 2 ^ b + x := by ring
-    rw [this]; ring
-  rw [Finset.sum_congr rfl hsecond, ← Finset.mul_sum]
-  by_cases hpar : m % 2 = 0
-  · rw [if_pos hpar]
-    have h2 : m / 2 * 2 = m := by omega
-    have ht : p.testBit b = false := by rw [htb]; simp [hpar]
-    rw [h2, ht]
-    simp only [Bool.false_eq_true, if_false, one_mul]
-    unfold part
-    rw [hm, Nat.add_div_right p hd, hm]
-    have hw : ∀ x ∈ range (2 ^ b), wsign x (p + 2 ^ b) * f ((m + 1) * 2 ^ b + x) =
-        wsign x p * f ((m + 1) * 2 ^ b + x) := by
-      intro x hx
-      rw [wsign_of_mod_eq x (p + 2 ^ b) p b (Finset.mem_range.1 hx) (Nat.add_mod_right p (2 ^ b))]
-    rw [Finset.sum_congr rfl hw]
-  · rw [if_neg hpar]
-    have h2 : m / 2 * 2 + 1 = m := by omega
-    have ht : p.testBit b = true := by rw [htb]; simp; omega
-    have hge : 2 ^ b ≤ p := by
-      have : 1 ≤ p / 2 ^ b := by omega
-      exact (Nat.le_div_iff_mul_le hd).1 this |>.trans' (by omega)
-    rw [h2, ht]
-    simp only [if_true]
-    unfold part
-    have hsub : (p - 2 ^ b) / 2 ^ b = m / 2 * 2 := by
-      have := Nat.sub_mul_div p (2 ^ b) 1
-      rw [Nat.mul_one] at this
-      rw [this, hm]; omega
-    rw [hm, hsub]
-    have hw : ∀ x ∈ range (2 ^ b), wsign x (p - 2 ^ b) * f (m / 2 * 2 * 2 ^ b + x) =
-        wsign x p * f (m / 2 * 2 * 2 ^ b + x) := by
-      intro x hx
-      rw [wsign_of_mod_eq x (p - 2 ^ b) p b (Finset.mem_range.1 hx) (Nat.mod_eq_sub_mod hge).symm]
-    rw [Finset.sum_congr rfl hw]
-    ring
-
-/-! ### two radix-2 levels, expanded -/
-
-theorem lvl2_00 (f : ℕ → Z) (d p : ℕ) (hd : 0 < d) (h1 : p / d % 2 = 0) (h2 : p / (2 * d) % 2 = 0) :
-    lvl (2 * d) (lvl d f) p = (f p + f (p + d)) + (f (p + 2 * d) + f (p + 2 * d + d)) := by
-  have h3 : (p + 2 * d) / d % 2 = 0 := by rw [Nat.add_mul_div_right p 2 hd]; omega
-  unfold lvl
-  rw [if_pos h2, if_pos h1, if_pos h3]
-
-theorem lvl2_10 (f : ℕ → Z) (d p : ℕ) (hd : 0 < d) (h1 : p / d % 2 = 1) (h2 : p / (2 * d) % 2 = 0) :
-    lvl (2 * d) (lvl d f) p = (f (p - d) - f p) + (f (p + 2 * d - d) - f (p + 2 * d)) := by
-  have h3 : ¬ (p + 2 * d) / d % 2 = 0 := by rw [Nat.add_mul_div_right p 2 hd]; omega
-  have h1' : ¬ p / d % 2 = 0 := by omega
-  unfold lvl
-  rw [if_pos h2, if_neg h1', if_neg h3]
-
-theorem lvl2_01 (f : ℕ → Z) (d p : ℕ) (h1 : p / d % 2 = 0) (h2 : p / (2 * d) % 2 = 1) :
-    lvl (2 * d) (lvl d f) p = (f (p - 2 * d) + f (p - 2 * d + d)) - (f p + f (p + d)) := by
-  have h4 : p / (2 * d) = p / d / 2 := by rw [Nat.mul_comm 2 d, Nat.div_div_eq_div_mul]
-  rw [h4] at h2
-  have h3 : (p - 2 * d) / d % 2 = 0 := by
-    have := Nat.sub_mul_div p d 2
-    rw [Nat.mul_comm d 2] at this
-    rw [this]; omega
-  have h2' : ¬ p / (2 * d) % 2 = 0 := by rw [h4]; omega
-  unfold lvl
-  rw [if_neg h2', if_pos h1, if_pos h3]
-
-theorem lvl2_11 (f : ℕ → Z) (d p : ℕ) (h1 : p / d % 2 = 1) (h2 : p / (2 * d) % 2 = 1) :
-    lvl (2 * d) (lvl d f) p = (f (p - 2 * d - d) - f (p - 2 * d)) - (f (p - d) - f p) := by
-  have h4 : p / (2 * d) = p / d / 2 := by rw [Nat.mul_comm 2 d, Nat.div_div_eq_div_mul]
-  rw [h4] at h2
-  have h3 : ¬ (p - 2 * d) / d % 2 = 0 := by
-    have := Nat.sub_mul_div p d 2
-    rw [Nat.mul_comm d 2] at this
-    rw [this]; omega
-  have h2' : ¬ p / (2 * d) % 2 = 0 := by rw [h4]; omega
-  have h1' : ¬ p / d % 2 = 0 := by omega
-  unfold lvl
-  rw [if_neg h2', if_neg h1', if_neg h3]
-
 /-! ### one radix-4 pass of the array code = two radix-2 levels -/
 
-theorem bfly4_cast0 (v0 v1 v2 v3 : ℕ) (b0 : v0 < 65536) (b1 : v1 < 65536) (b2 : v2 < 65536)
-    (b3 : v3 < 65536) : bfly4 v0 v1 v2 v3 0 < 65536 ∧
-      ((bfly4 v0 v1 v2 v3 0 : ℕ) : Z) = ((v0 : Z) + v1) + ((v2 : Z) + v3) := by
-  show addMod (addMod v0 v1) (addMod v2 v3) < 65536 ∧
-    ((addMod (addMod v0 v1) (addMod v2 v3) : ℕ) : Z) = _
-  refine ⟨addMod_lt _ _ (addMod_lt _ _ b0 b1) (addMod_lt _ _ b2 b3), ?_⟩
-  rw [addMod_cast _ _ (addMod_lt _ _ b0 b1) (addMod_lt _ _ b2 b3), addMod_cast _ _ b0 b1,
-    addMod_cast _ _ b2 b3]
+/-- the radix-4 butterfly in `ZMod 65535` -/
+def bflyZ (v0 v1 v2 v3 : Z) (k : ℕ) : Z :=
+  if k = 0 then (v0 + v1) + (v2 + v3)
+  else if k = 1 then (v0 - v1) + (v2 - v3)
+  else if k = 2 then (v0 + v1) - (v2 + v3)
+  else (v0 - v1) - (v2 - v3)
 
-theorem bfly4_cast1 (v0 v1 v2 v3 : ℕ) (b0 : v0 < 65536) (b1 : v1 < 65536) (b2 : v2 < 65536)
-    (b3 : v3 < 65536) : bfly4 v0 v1 v2 v3 1 < 65536 ∧
-      ((bfly4 v0 v1 v2 v3 1 : ℕ) : Z) = ((v0 : Z) - v1) + ((v2 : Z) - v3) := by
-  show addMod (subMod v0 v1) (subMod v2 v3) < 65536 ∧
-    ((addMod (subMod v0 v1) (subMod v2 v3) : ℕ) : Z) = _
-  refine ⟨addMod_lt _ _ (subMod_lt _ _ b0 b1) (subMod_lt _ _ b2 b3), ?_⟩
-  rw [addMod_cast _ _ (subMod_lt _ _ b0 b1) (subMod_lt _ _ b2 b3), subMod_cast _ _ b0 b1,
-    subMod_cast _ _ b2 b3]
-
-theorem bfly4_cast2 (v0 v1 v2 v3 : ℕ) (b0 : v0 < 65536) (b1 : v1 < 65536) (b2 : v2 < 65536)
-    (b3 : v3 < 65536) : bfly4 v0 v1 v2 v3 2 < 65536 ∧
-      ((bfly4 v0 v1 v2 v3 2 : ℕ) : Z) = ((v0 : Z) + v1) - ((v2 : Z) + v3) := by
-  show subMod (addMod v0 v1) (addMod v2 v3) < 65536 ∧
-    ((subMod (addMod v0 v1) (addMod v2 v3) : ℕ) : Z) = _
-  refine ⟨subMod_lt _ _ (addMod_lt _ _ b0 b1) (addMod_lt _ _ b2 b3), ?_⟩
-  rw [subMod_cast _ _ (addMod_lt _ _ b0 b1) (addMod_lt _ _ b2 b3), addMod_cast _ _ b0 b1,
-    addMod_cast _ _ b2 b3]
-
-theorem bfly4_cast3 (v0 v1 v2 v3 : ℕ) (b0 : v0 < 65536) (b1 : v1 < 65536) (b2 : v2 < 65536)
-    (b3 : v3 < 65536) : bfly4 v0 v1 v2 v3 3 < 65536 ∧
-      ((bfly4 v0 v1 v2 v3 3 : ℕ) : Z) = ((v0 : Z) - v1) - ((v2 : Z) - v3) := by
-  show subMod (subMod v0 v1) (subMod v2 v3) < 65536 ∧
-    ((subMod (subMod v0 v1) (subMod v2 v3) : ℕ) : Z) = _
-  refine ⟨subMod_lt _ _ (subMod_lt _ _ b0 b1) (subMod_lt _ _ b2 b3), ?_⟩
-  rw [subMod_cast _ _ (subMod_lt _ _ b0 b1) (subMod_lt _ _ b2 b3), subMod_cast _ _ b0 b1,
-    subMod_cast _ _ b2 b3]
+theorem bfly4_cast (v0 v1 v2 v3 k : ℕ) (b0 : v0 < 65536) (b1 : v1 < 65536) (b2 : v2 < 65536)
+    (b3 : v3 < 65536) : bfly4 v0 v1 v2 v3 k < 65536 ∧
+      ((bfly4 v0 v1 v2 v3 k : ℕ) : Z) = bflyZ v0 v1 v2 v3 k := by
+  unfold bfly4 bflyZ
+  split
+  · refine ⟨addMod_lt _ _ (addMod_lt _ _ b0 b1) (addMod_lt _ _ b2 b3), ?_⟩
+    rw [if_pos rfl, addMod_cast _ _ (addMod_lt _ _ b0 b1) (addMod_lt _ _ b2 b3),
+      addMod_cast _ _ b0 b1, addMod_cast _ _ b2 b3]
+  · refine ⟨addMod_lt _ _ (subMod_lt _ _ b0 b1) (subMod_lt _ _ b2 b3), ?_⟩
+    rw [if_neg (by decide), if_pos rfl,
+      addMod_cast _ _ (subMod_lt _ _ b0 b1) (subMod_lt _ _ b2 b3),
+      subMod_cast _ _ b0 b1, subMod_cast _ _ b2 b3]
+  · refine ⟨subMod_lt _ _ (addMod_lt _ _ b0 b1) (addMod_lt _ _ b2 b3), ?_⟩
+    rw [if_neg (by decide), if_neg (by decide), if_pos rfl,
+      subMod_cast _ _ (addMod_lt _ _ b0 b1) (addMod_lt _ _ b2 b3),
+      addMod_cast _ _ b0 b1, addMod_cast _ _ b2 b3]
+  · rename_i h0 h1 h2
+    refine ⟨subMod_lt _ _ (subMod_lt _ _ b0 b1) (subMod_lt _ _ b2 b3), ?_⟩
+    rw [if_neg h0, if_neg h1, if_neg h2,
+      subMod_cast _ _ (subMod_lt _ _ b0 b1) (subMod_lt _ _ b2 b3),
+      subMod_cast _ _ b0 b1, subMod_cast _ _ b2 b3]
 
 /-- the array read in `ZMod 65535` -/
 def toZ (a : Array ℕ) (x : ℕ) : Z := ((a.getD x 0 : ℕ) : Z)
@@ -312,6 +68,10 @@ theorem fwhtAt_cast (d t : ℕ) (a : Array ℕ) (hb : ∀ i, a.getD i 0 < 65536)
   have b1 := hb (q * (4 * d) + r + d)
   have b2 := hb (q * (4 * d) + r + 2 * d)
   have b3 := hb (q * (4 * d) + r + 3 * d)
+  obtain ⟨hlt, hc⟩ := bfly4_cast _ _ _ _ k b0 b1 b2 b3
+  refine ⟨hlt, ?_⟩
+  rw [hc]
+  unfold bflyZ toZ
   have hk' : k = 0 ∨ k = 1 ∨ k = 2 ∨ k = 3 := by omega
   rcases hk' with rfl | rfl | rfl | rfl
   · have e0 : q * (4 * d) + r = p := by omega
@@ -319,32 +79,370 @@ theorem fwhtAt_cast (d t : ℕ) (a : Array ℕ) (hb : ∀ i, a.getD i 0 < 65536)
     have e2 : q * (4 * d) + r + 2 * d = p + 2 * d := by omega
     have e3 : q * (4 * d) + r + 3 * d = p + 2 * d + d := by omega
     rw [lvl2_00 _ d p hd h1 h2]
-    unfold toZ
-    rw [← e3, ← e2, ← e1, ← e0]
-    exact bfly4_cast0 _ _ _ _ b0 b1 b2 b3
+    rw [e3, e2, e1, e0, if_pos rfl]
   · have e0 : q * (4 * d) + r = p - d := by omega
     have e1 : q * (4 * d) + r + d = p := by omega
     have e2 : q * (4 * d) + r + 2 * d = p + 2 * d - d := by omega
     have e3 : q * (4 * d) + r + 3 * d = p + 2 * d := by omega
     rw [lvl2_10 _ d p hd h1 h2]
-    unfold toZ
-    rw [← e3, ← e2, ← e0, ← e1]
-    exact bfly4_cast1 _ _ _ _ b0 b1 b2 b3
+    rw [e3, e2, e1, e0, if_neg (by decide), if_pos rfl]
   · have e0 : q * (4 * d) + r = p - 2 * d := by omega
     have e1 : q * (4 * d) + r + d = p - 2 * d + d := by omega
     have e2 : q * (4 * d) + r + 2 * d = p := by omega
     have e3 : q * (4 * d) + r + 3 * d = p + d := by omega
     rw [lvl2_01 _ d p h1 h2]
-    unfold toZ
-    rw [← e3, ← e1, ← e0, ← e2]
-    exact bfly4_cast2 _ _ _ _ b0 b1 b2 b3
+    rw [e3, e2, e1, e0, if_neg (by decide), if_neg (by decide), if_pos rfl]
   · have e0 : q * (4 * d) + r = p - 2 * d - d := by omega
     have e1 : q * (4 * d) + r + d = p - 2 * d := by omega
     have e2 : q * (4 * d) + r + 2 * d = p - d := by omega
     have e3 : q * (4 * d) + r + 3 * d = p := by omega
     rw [lvl2_11 _ d p h1 h2]
+    rw [e3, e2, e1, e0, if_neg (by decide), if_neg (by decide), if_neg (by decide)]
+
+/-! ### one pass on arrays -/
+
+/-- all entries (and the default) are `u16` values -/
+def Bounded (a : Array ℕ) : Prop := ∀ i, a.getD i 0 < 65536
+
+theorem getD_of_ge (a : Array ℕ) (i : ℕ) (h : a.size ≤ i) : a.getD i 0 = 0 := by
+  simp [Array.getD, Nat.not_lt.2 h]
+
+theorem bounded_of (a : Array ℕ) (n : ℕ) (hs : a.size = n) (h : ∀ i, i < n → a.getD i 0 < 65536) :
+    Bounded a := by
+  intro i
+  by_cases hi : i < n
+  · exact h i hi
+  · rw [getD_of_ge a i (by omega)]; decide
+
+theorem toZ_of_ge (a : Array ℕ) (i : ℕ) (h : a.size ≤ i) : toZ a i = 0 := by
+  unfold toZ; rw [getD_of_ge a i h, Nat.cast_zero]
+
+theorem part_eq_zero_of_ge (b n : ℕ) (f : ℕ → Z) (p : ℕ) (hf : ∀ p, n ≤ p → f p = 0)
+    (hdvd : 2 ^ b ∣ n) (hp : n ≤ p) : part b f p = 0 := by
+  unfold part
+  refine Finset.sum_eq_zero fun x _ => ?_
+  obtain ⟨m, rfl⟩ := hdvd
+  have h1 : m ≤ p / 2 ^ b := by
+    rw [Nat.le_div_iff_mul_le (Nat.two_pow_pos b), Nat.mul_comm]; exact hp
+  have h2 : 2 ^ b * m ≤ p / 2 ^ b * 2 ^ b + x := by
+    rw [Nat.mul_comm]
+    exact Nat.le_trans (Nat.mul_le_mul_right _ h1) (Nat.le_add_right _ _)
+  rw [hf _ h2, mul_zero]
+
+theorem fwhtLayer_part (b d : ℕ) (hd : d = 2 ^ b) (hb : b + 2 ≤ 16) (a : Array ℕ) (f : ℕ → Z)
+    (hs : a.size = 65536) (hbd : Bounded a) (hf : ∀ p, 65536 ≤ p → f p = 0)
+    (h : toZ a = part b f) :
+    (fwhtLayer d 65536 a).size = 65536 ∧ Bounded (fwhtLayer d 65536 a) ∧
+      toZ (fwhtLayer d 65536 a) = part (b + 2) f := by
+  have hdpos : 0 < d := hd ▸ Nat.two_pow_pos b
+  have hgrp : ∀ p, p < 65536 → p / (4 * d) * (4 * d) < 65536 := fun p hp =>
+    Nat.lt_of_le_of_lt (Nat.div_mul_le_self _ _) hp
+  refine ⟨by rw [fwhtLayer_size, hs], ?_, ?_⟩
+  · intro p
+    rw [fwhtLayer_getD, hs]
+    by_cases hp : p < 65536
+    · rw [if_pos hp]; exact (fwhtAt_cast d 65536 a hbd hdpos p (hgrp p hp)).1
+    · rw [if_neg hp]; decide
+  · funext p
+    by_cases hp : p < 65536
+    · have e1 : part (b + 1) f = lvl (2 ^ b) (part b f) :=
+        funext fun q => part_succ b (by omega) f q
+      have e2 : part (b + 1 + 1) f p = lvl (2 ^ (b + 1)) (part (b + 1) f) p :=
+        part_succ (b + 1) (by omega) f p
+      show _ = part (b + 1 + 1) f p
+      rw [e2, e1, pow_succ', ← hd, ← h]
+      unfold toZ
+      rw [fwhtLayer_getD, hs, if_pos hp]
+      exact (fwhtAt_cast d 65536 a hbd hdpos p (hgrp p hp)).2
+    · have hp' : 65536 ≤ p := Nat.le_of_not_lt hp
+      rw [toZ_of_ge _ _ (by rw [fwhtLayer_size, hs]; exact hp')]
+      have hdvd : 2 ^ (b + 2) ∣ 65536 := by
+        have : (65536 : ℕ) = 2 ^ 16 := by norm_num
+        rw [this]; exact pow_dvd_pow 2 hb
+      exact (part_eq_zero_of_ge (b + 2) 65536 f p hf hdvd hp').symm
+
+/-! ### item 1: `fwht` computes the Walsh–Hadamard transform over `ZMod 65535` -/
+
+/-- the Walsh–Hadamard transform of the first 65536 values of `f` -/
+def wht (f : ℕ → Z) (y : ℕ) : Z := ∑ x ∈ range 65536, wsign x y * f x
+
+theorem wht_congr (f g : ℕ → Z) (h : ∀ x, x < 65536 → f x = g x) (y : ℕ) : wht f y = wht g y :=
+  Finset.sum_congr rfl fun x hx => by rw [h x (Finset.mem_range.1 hx)]
+
+theorem fwht_toZ (a : Array ℕ) (hs : a.size = 65536) (hbd : Bounded a) :
+    (fwht a 65536).size = 65536 ∧ Bounded (fwht a 65536) ∧
+      ∀ y, y < 65536 → toZ (fwht a 65536) y = wht (toZ a) y := by
+  have hf : ∀ p, 65536 ≤ p → toZ a p = 0 := fun p hp => toZ_of_ge a p (by rw [hs]; exact hp)
+  have h0 : toZ a = part 0 (toZ a) := (part_zero _).symm
+  unfold fwht
+  simp only [List.foldl]
+  obtain ⟨s1, b1, h1⟩ := fwhtLayer_part 0 1 (by norm_num) (by omega) a _ hs hbd hf h0
+  obtain ⟨s2, b2, h2⟩ := fwhtLayer_part 2 4 (by norm_num) (by omega) _ _ s1 b1 hf h1
+  obtain ⟨s3, b3, h3⟩ := fwhtLayer_part 4 16 (by norm_num) (by omega) _ _ s2 b2 hf h2
+  obtain ⟨s4, b4, h4⟩ := fwhtLayer_part 6 64 (by norm_num) (by omega) _ _ s3 b3 hf h3
+  obtain ⟨s5, b5, h5⟩ := fwhtLayer_part 8 256 (by norm_num) (by omega) _ _ s4 b4 hf h4
+  obtain ⟨s6, b6, h6⟩ := fwhtLayer_part 10 1024 (by norm_num) (by omega) _ _ s5 b5 hf h5
+  obtain ⟨s7, b7, h7⟩ := fwhtLayer_part 12 4096 (by norm_num) (by omega) _ _ s6 b6 hf h6
+  obtain ⟨s8, b8, h8⟩ := fwhtLayer_part 14 16384 (by norm_num) (by omega) _ _ s7 b7 hf h7
+  refine ⟨s8, b8, fun y hy => ?_⟩
+  rw [h8]
+  unfold part wht
+  have e : (2 : ℕ) ^ (14 + 2) = 65536 := by norm_num
+  rw [e, Nat.div_eq_of_lt hy]
+  refine Finset.sum_congr rfl fun x _ => ?_
+  rw [Nat.zero_mul, Nat.zero_add]
+
+/-- **Item 1.** `fwht a 65536` is the Walsh–Hadamard transform of `a` over `ZMod 65535`. -/
+theorem fwht_spec (a : Array ℕ) (hs : a.size = 65536) (hlt : ∀ i, i < 65536 → a.getD i 0 < 65536) :
+    (fwht a 65536).size = 65536 ∧ (∀ i, (fwht a 65536).getD i 0 < 65536) ∧
+      ∀ y, y < 65536 → (((fwht a 65536).getD y 0 : ℕ) : ZMod 65535) =
+        ∑ x ∈ Finset.range 65536, wsign x y * ((a.getD x 0 : ℕ) : ZMod 65535) :=
+  fwht_toZ a hs (bounded_of a 65536 hs hlt)
+
+/-! ### item 3: the XOR-convolution theorem -/
+
+theorem xor_xor_self (x j : ℕ) : (x ^^^ j) ^^^ j = x := by
+  rw [Nat.xor_assoc, Nat.xor_self, Nat.xor_zero]
+
+theorem eq_of_xor_eq_zero (x z : ℕ) (h : x ^^^ z = 0) : x = z := by
+  have h' := xor_xor_self x z
+  rw [h, Nat.zero_xor] at h'
+  exact h'.symm
+
+theorem xor_lt (x j : ℕ) (hx : x < 65536) (hj : j < 65536) : x ^^^ j < 65536 := by
+  have e : (65536 : ℕ) = 2 ^ 16 := by norm_num
+  rw [e] at hx hj ⊢
+  exact Nat.xor_lt_two_pow hx hj
+
+/-- `x ↦ x xor j` permutes `[0, 65536)` -/
+theorem sum_xor_reindex (g : ℕ → Z) (j : ℕ) (hj : j < 65536) :
+    ∑ x ∈ range 65536, g (x ^^^ j) = ∑ x ∈ range 65536, g x := by
+  refine Finset.sum_nbij' (fun x => x ^^^ j) (fun x => x ^^^ j) ?_ ?_ ?_ ?_ ?_
+  · intro x hx; exact Finset.mem_range.2 (xor_lt x j (Finset.mem_range.1 hx) hj)
+  · intro x hx; exact Finset.mem_range.2 (xor_lt x j (Finset.mem_range.1 hx) hj)
+  · intro x _; exact xor_xor_self x j
+  · intro x _; exact xor_xor_self x j
+  · intro x _; rfl
+
+/-- XOR-convolution of the first 65536 values -/
+def xconv (u v : ℕ → Z) (x : ℕ) : Z := ∑ j ∈ range 65536, u j * v (x ^^^ j)
+
+/-- **Item 3.** the Walsh–Hadamard transform turns XOR-convolution into the pointwise product -/
+theorem wht_xconv (u v : ℕ → Z) (y : ℕ) : wht (xconv u v) y = wht u y * wht v y := by
+  unfold wht xconv
+  have h1 : ∀ x ∈ range 65536, wsign x y * ∑ j ∈ range 65536, u j * v (x ^^^ j) =
+      ∑ j ∈ range 65536, wsign x y * (u j * v (x ^^^ j)) := fun x _ => Finset.mul_sum _ _ _
+  rw [Finset.sum_congr rfl h1, Finset.sum_comm]
+  have h2 : ∀ j ∈ range 65536, ∑ x ∈ range 65536, wsign x y * (u j * v (x ^^^ j)) =
+      (wsign j y * u j) * ∑ x ∈ range 65536, wsign x y * v x := by
+    intro j hj
+    have h3 : ∀ x ∈ range 65536, wsign x y * (u j * v (x ^^^ j)) =
+        (fun x' => wsign (x' ^^^ j) y * (u j * v x')) (x ^^^ j) := by
+      intro x _
+      show _ = wsign ((x ^^^ j) ^^^ j) y * (u j * v (x ^^^ j))
+      rw [xor_xor_self]
+    rw [Finset.sum_congr rfl h3,
+      sum_xor_reindex (fun x' => wsign (x' ^^^ j) y * (u j * v x')) j (Finset.mem_range.1 hj),
+      Finset.mul_sum]
+    refine Finset.sum_congr rfl fun x _ => ?_
+    show wsign (x ^^^ j) y * (u j * v x) = _
+    rw [wsign_xor_left]; ring
+  rw [Finset.sum_congr rfl h2, ← Finset.sum_mul]
+
+/-! ### item 2: orthogonality and involution -/
+
+theorem wsign_two_pow_right (i : ℕ) (hi : i < 16) (x : ℕ) :
+    wsign x (2 ^ i) = if x.testBit i then -1 else 1 := by
+  rw [wsign_comm, wsign_two_pow i hi]
+
+/-- the sum of a character -/
+theorem sum_wsign (w : ℕ) (hw : w < 65536) :
+    ∑ y ∈ range 65536, wsign y w = if w = 0 then ((65536 : ℕ) : Z) else 0 := by
+  by_cases h0 : w = 0
+  · subst h0
+    rw [if_pos rfl, Finset.sum_congr rfl (fun y _ => wsign_zero_right y), Finset.sum_const,
+      Finset.card_range, nsmul_eq_mul, mul_one]
+  · rw [if_neg h0]
+    obtain ⟨i, hi⟩ := Nat.exists_testBit_of_ne_zero h0
+    have hi16 : i < 16 := by
+      by_contra hge
+      have hlt : w < 2 ^ i := Nat.lt_of_lt_of_le hw (by
+        have e : (65536 : ℕ) = 2 ^ 16 := by norm_num
+        rw [e]; exact Nat.pow_le_pow_right (by decide) (Nat.le_of_not_lt hge))
+      rw [Nat.testBit_lt_two_pow hlt] at hi
+      exact Bool.false_ne_true hi
+    have hpow : 2 ^ i < 65536 := by
+      have e : (65536 : ℕ) = 2 ^ 16 := by norm_num
+      rw [e]; exact Nat.pow_lt_pow_right (by decide) hi16
+    refine Finset.sum_involution (fun y _ => y ^^^ 2 ^ i) ?_ ?_ ?_ ?_
+    · intro y _
+      show wsign y w + wsign (y ^^^ 2 ^ i) w = 0
+      rw [wsign_xor_left, wsign_two_pow i hi16, hi, if_pos rfl]; ring
+    · intro y _ _ heq
+      have h1 : (y ^^^ 2 ^ i).testBit i = y.testBit i := by rw [heq]
+      rw [Nat.testBit_xor, Nat.testBit_two_pow_self] at h1
+      cases hb : y.testBit i <;> rw [hb] at h1 <;> simp at h1
+    · intro y hy
+      exact Finset.mem_range.2 (xor_lt y _ (Finset.mem_range.1 hy) hpow)
+    · intro y _
+      exact xor_xor_self y _
+
+/-- orthogonality of the Walsh functions -/
+theorem wsign_orthogonal (x z : ℕ) (hx : x < 65536) (hz : z < 65536) :
+    ∑ y ∈ range 65536, wsign x y * wsign y z = if x = z then ((65536 : ℕ) : Z) else 0 := by
+  have h1 : ∀ y ∈ range 65536, wsign x y * wsign y z = wsign y (x ^^^ z) := fun y _ => by
+    rw [wsign_xor_right, wsign_comm x y]
+  rw [Finset.sum_congr rfl h1, sum_wsign _ (xor_lt x z hx hz)]
+  by_cases hxz : x = z
+  · subst hxz; rw [Nat.xor_self, if_pos rfl, if_pos rfl]
+  · rw [if_neg hxz, if_neg (fun h => hxz (eq_of_xor_eq_zero x z h))]
+
+/-- `H (H f) = 65536 • f` -/
+theorem wht_wht' (f : ℕ → Z) (z : ℕ) (hz : z < 65536) :
+    wht (wht f) z = ((65536 : ℕ) : Z) * f z := by
+  unfold wht
+  have h1 : ∀ y ∈ range 65536, wsign y z * ∑ x ∈ range 65536, wsign x y * f x =
+      ∑ x ∈ range 65536, wsign y z * (wsign x y * f x) := fun y _ => Finset.mul_sum _ _ _
+  rw [Finset.sum_congr rfl h1, Finset.sum_comm]
+  have h2 : ∀ x ∈ range 65536, ∑ y ∈ range 65536, wsign y z * (wsign x y * f x) =
+      (if x = z then ((65536 : ℕ) : Z) else 0) * f x := by
+    intro x hx
+    rw [← wsign_orthogonal x z (Finset.mem_range.1 hx) hz, Finset.sum_mul]
+    refine Finset.sum_congr rfl fun y _ => ?_
+    ring
+  rw [Finset.sum_congr rfl h2]
+  simp only [ite_mul, zero_mul]
+  rw [Finset.sum_ite_eq' (range 65536) z, if_pos (Finset.mem_range.2 hz)]
+
+/-- **Item 2.** the Walsh–Hadamard transform over `ZMod 65535` is an involution
+    (`65536 ≡ 1`). -/
+theorem wht_wht (f : ℕ → Z) (z : ℕ) (hz : z < 65536) : wht (wht f) z = f z := by
+  rw [wht_wht' f z hz, Z_65536, one_mul]
+
+/-- item 2 on arrays: applying `fwht` twice gives back the input modulo 65535 -/
+theorem fwht_fwht (a : Array ℕ) (hs : a.size = 65536) (hlt : ∀ i, i < 65536 → a.getD i 0 < 65536)
+    (y : ℕ) (hy : y < 65536) :
+    (((fwht (fwht a 65536) 65536).getD y 0 : ℕ) : ZMod 65535) = ((a.getD y 0 : ℕ) : ZMod 65535) := by
+  obtain ⟨s1, b1, h1⟩ := fwht_toZ a hs (bounded_of a 65536 hs hlt)
+  obtain ⟨_, _, h2⟩ := fwht_toZ _ s1 b1
+  show toZ (fwht (fwht a 65536) 65536) y = toZ a y
+  rw [h2 y hy, wht_congr _ _ h1 y, wht_wht _ y hy]
+
+/-! ### item 5: `eval_poly` -/
+
+/-- the pointwise product step of `eval_poly` -/
+def mulArr (e1 lw : Array ℕ) : Array ℕ :=
+  Array.ofFn (n := e1.size) fun p =>
+    addMod (e1.getD p.val 0 * lw.getD p.val 0 % 65536) (e1.getD p.val 0 * lw.getD p.val 0 / 65536)
+
+theorem evalPolyWith_eq (lw er : Array ℕ) (t : ℕ) :
+    evalPolyWith lw er t = fwht (mulArr (fwht er t) lw) 65536 := rfl
+
+theorem mulArr_size (e1 lw : Array ℕ) : (mulArr e1 lw).size = e1.size := by
+  unfold mulArr; exact Array.size_ofFn
+
+theorem mulArr_getD (e1 lw : Array ℕ) (p : ℕ) (hp : p < e1.size) :
+    (mulArr e1 lw).getD p 0 =
+      addMod (e1.getD p 0 * lw.getD p 0 % 65536) (e1.getD p 0 * lw.getD p 0 / 65536) := by
+  have hp' : p < (mulArr e1 lw).size := by rw [mulArr_size]; exact hp
+  have h1 : (mulArr e1 lw).getD p 0 = (mulArr e1 lw)[p] := by simp [Array.getD, hp']
+  rw [h1]
+  show (Array.ofFn (n := e1.size) _)[p]'(by rw [Array.size_ofFn]; exact hp) = _
+  rw [Array.getElem_ofFn]
+
+theorem mulArr_spec (e1 lw : Array ℕ) (n : ℕ) (hs : e1.size = n) (h1 : Bounded e1) (h2 : Bounded lw) :
+    Bounded (mulArr e1 lw) ∧ ∀ p, p < n → toZ (mulArr e1 lw) p = toZ e1 p * toZ lw p := by
+  constructor
+  · intro p
+    by_cases hp : p < e1.size
+    · rw [mulArr_getD e1 lw p hp]; exact (mulStep_spec _ _ (h1 p) (h2 p)).1
+    · rw [getD_of_ge _ _ (by rw [mulArr_size]; omega)]; decide
+  · intro p hp
     unfold toZ
-    rw [← e0, ← e1, ← e2, ← e3]
-    exact bfly4_cast3 _ _ _ _ b0 b1 b2 b3
+    rw [mulArr_getD e1 lw p (by omega)]
+    exact (mulStep_spec _ _ (h1 p) (h2 p)).2
+
+theorem evalPoly_toZ (er lg : Array ℕ) (hse : er.size = 65536) (hsl : lg.size = 65536)
+    (hbe : Bounded er) (hbl : Bounded lg) :
+    (evalPolyWith (fwht lg 65536) er 65536).size = 65536 ∧
+    Bounded (evalPolyWith (fwht lg 65536) er 65536) ∧
+      ∀ x, x < 65536 →
+        toZ (evalPolyWith (fwht lg 65536) er 65536) x = xconv (toZ er) (toZ lg) x := by
+  obtain ⟨sE, bE, hE⟩ := fwht_toZ er hse hbe
+  obtain ⟨_, bL, hL⟩ := fwht_toZ lg hsl hbl
+  obtain ⟨bM, hM⟩ := mulArr_spec (fwht er 65536) (fwht lg 65536) 65536 sE bE bL
+  have sM : (mulArr (fwht er 65536) (fwht lg 65536)).size = 65536 := by rw [mulArr_size, sE]
+  obtain ⟨sR, bR, hR⟩ := fwht_toZ _ sM bM
+  rw [evalPolyWith_eq]
+  refine ⟨sR, bR, fun x hx => ?_⟩
+  rw [hR x hx]
+  have hc : ∀ p, p < 65536 → toZ (mulArr (fwht er 65536) (fwht lg 65536)) p =
+      wht (xconv (toZ er) (toZ lg)) p := by
+    intro p hp
+    rw [hM p hp, hE p hp, hL p hp, wht_xconv]
+  rw [wht_congr _ _ hc x, wht_wht _ x hx]
+
+/-- **Item 5.** With `LOG_WALSH = fwht lg`, `eval_poly(erasures)` computes at every point `x`
+    the XOR-convolution `Σ_j erasures[j] * lg[x xor j]` in `ZMod 65535`. -/
+theorem evalPoly_spec (erasures lg : Array ℕ) (hse : erasures.size = 65536)
+    (hsl : lg.size = 65536) (hbe : ∀ i, i < 65536 → erasures.getD i 0 < 65536)
+    (hbl : ∀ i, i < 65536 → lg.getD i 0 < 65536) :
+    (evalPolyWith (fwht lg 65536) erasures 65536).size = 65536 ∧
+    (∀ i, (evalPolyWith (fwht lg 65536) erasures 65536).getD i 0 < 65536) ∧
+      ∀ x, x < 65536 →
+        (((evalPolyWith (fwht lg 65536) erasures 65536).getD x 0 : ℕ) : ZMod 65535) =
+          ∑ j ∈ Finset.range 65536,
+            ((erasures.getD j 0 : ℕ) : ZMod 65535) * ((lg.getD (x ^^^ j) 0 : ℕ) : ZMod 65535) :=
+  evalPoly_toZ erasures lg hse hsl (bounded_of _ _ hse hbe) (bounded_of _ _ hsl hbl)
+
+/-- the same for any truncation that covers all non-zero entries of `erasures` -/
+theorem evalPoly_spec_trunc (erasures lg : Array ℕ) (trunc : ℕ) (hse : erasures.size = 65536)
+    (hsl : lg.size = 65536) (hbe : ∀ i, i < 65536 → erasures.getD i 0 < 65536)
+    (hbl : ∀ i, i < 65536 → lg.getD i 0 < 65536)
+    (hz : ∀ i, trunc ≤ i → i < 65536 → erasures.getD i 0 = 0) :
+    (evalPolyWith (fwht lg 65536) erasures trunc).size = 65536 ∧
+    (∀ i, (evalPolyWith (fwht lg 65536) erasures trunc).getD i 0 < 65536) ∧
+      ∀ x, x < 65536 →
+        (((evalPolyWith (fwht lg 65536) erasures trunc).getD x 0 : ℕ) : ZMod 65535) =
+          ∑ j ∈ Finset.range 65536,
+            ((erasures.getD j 0 : ℕ) : ZMod 65535) * ((lg.getD (x ^^^ j) 0 : ℕ) : ZMod 65535) := by
+  rw [evalPoly_trunc_indep _ erasures trunc hse hz]
+  exact evalPoly_spec erasures lg hse hsl hbe hbl
+
+/-- for a 0/1 erasure indicator: the value at `x` is `Σ_{j marked} lg[x xor j]` modulo 65535 -/
+theorem evalPoly_spec_indicator (erasures lg : Array ℕ) (trunc : ℕ) (hse : erasures.size = 65536)
+    (hsl : lg.size = 65536) (hbe : ∀ i, i < 65536 → erasures.getD i 0 = 0 ∨ erasures.getD i 0 = 1)
+    (hbl : ∀ i, i < 65536 → lg.getD i 0 < 65536)
+    (hz : ∀ i, trunc ≤ i → i < 65536 → erasures.getD i 0 = 0) (x : ℕ) (hx : x < 65536) :
+    (((evalPolyWith (fwht lg 65536) erasures trunc).getD x 0 : ℕ) : ZMod 65535) =
+      ∑ j ∈ (Finset.range 65536).filter (fun j => erasures.getD j 0 = 1),
+        ((lg.getD (x ^^^ j) 0 : ℕ) : ZMod 65535) := by
+  have hbe' : ∀ i, i < 65536 → erasures.getD i 0 < 65536 := fun i hi => by
+    rcases hbe i hi with h | h <;> rw [h] <;> decide
+  rw [(evalPoly_spec_trunc erasures lg trunc hse hsl hbe' hbl hz).2.2 x hx, Finset.sum_filter]
+  refine Finset.sum_congr rfl fun j hj => ?_
+  rcases hbe j (Finset.mem_range.1 hj) with h | h
+  · rw [h, if_neg (by decide), Nat.cast_zero, zero_mul]
+  · rw [h, if_pos rfl, Nat.cast_one, one_mul]
+
+/-- the Walsh sign is `(-1)^popcount (x &&& y)` (low 16 bits) -/
+theorem wsign_eq_pow (x y : ℕ) :
+    wsign x y = (-1) ^ ((Finset.range 16).filter (fun i => (x &&& y).testBit i)).card := by
+  unfold wsign wbit
+  rw [Finset.prod_ite, Finset.prod_const, Finset.prod_const_one, mul_one]
+  congr 2
+  ext i
+  simp [Nat.testBit_and]
 
 end RS
+
+#print axioms RS.mulStep_spec
+#print axioms RS.fwht_spec
+#print axioms RS.wht_xconv
+#print axioms RS.wsign_orthogonal
+#print axioms RS.wht_wht
+#print axioms RS.fwht_fwht
+#print axioms RS.evalPoly_spec
+#print axioms RS.evalPoly_spec_trunc
+#print axioms RS.evalPoly_spec_indicator
+#print axioms RS.wsign_eq_pow
